@@ -1,6 +1,157 @@
-(* C06 — property theorems only (placeholder until the meta-theory files land). *)
-From GL Require Import Common.Bytes Lua.Syntax Lua.Values Lua.Eval Lua.Run Lua.EvalFacts.
+(* C06 — property theorems only. Meta-theory of the coroutine driver of the reference evaluator:
+   for all states, stacks of resumers, continuations, arguments and fuel. *)
+From GL Require Import Common.Bytes Lua.Syntax Lua.Num Lua.Values Lua.Names Lua.Eval Lua.Run
+  Lua.MonadFacts Lua.EvalStepFacts Lua.DriveFacts.
 
-Theorem adjust_spec : forall n vs, length (adjust n vs) = n /\ forall i, (i < n)%nat -> nth i (adjust n vs) VNil = nth i vs VNil.
-Proof. exact adjust_spec_lemma. Qed.
-Print Assumptions adjust_spec.
+(* ---- status automaton: the invariant and its preservation by every driver transition ---- *)
+Theorem co_wf_initial : forall d body, co_wf (init_state d body) [].
+Proof. exact co_wf_init_lemma. Qed.
+Print Assumptions co_wf_initial.
+
+Theorem co_wf_resume : forall s ws co, co_wf s ws -> resumable s co -> co_wf (st_resume s co) (cur s :: ws).
+Proof. exact co_wf_resume_lemma. Qed.
+Print Assumptions co_wf_resume.
+
+Theorem co_wf_finish : forall s who ws, co_wf s (who :: ws) -> co_wf (st_finish s who) ws.
+Proof. exact co_wf_finish_lemma. Qed.
+Print Assumptions co_wf_finish.
+
+Theorem co_wf_yield : forall s c who ws, co_wf s (who :: ws) -> cur s = Some c -> co_wf (st_yield s c who) ws.
+Proof. exact co_wf_yield_lemma. Qed.
+Print Assumptions co_wf_yield.
+
+Theorem co_wf_between_steps : forall s s' ws, co_wf s ws -> co_frame s s' -> co_wf s' ws.
+Proof. exact co_wf_frame_lemma. Qed.
+Print Assumptions co_wf_between_steps.
+
+(* the statuses after each transition, in closed form: suspended/initial -> running,
+   running -> normal while it resumes another, running -> suspended | dead, normal -> running *)
+Theorem status_after_resume : forall s co i,
+  (co < length (cos s))%nat -> (forall m, cur s = Some m -> (m < length (cos s))%nat /\ m <> co) ->
+  status (st_resume s co) i = if Nat.eqb co i then CoRun else if opt_eqb (cur s) i then CoNorm else status s i.
+Proof. exact st_resume_status_lemma. Qed.
+Print Assumptions status_after_resume.
+
+Theorem status_after_finish : forall s c who ws i, co_wf s (who :: ws) -> cur s = Some c ->
+  status (st_finish s who) i = if Nat.eqb c i then CoDead else if opt_eqb who i then CoRun else status s i.
+Proof. exact st_finish_status_lemma. Qed.
+Print Assumptions status_after_finish.
+
+Theorem status_after_yield : forall s c who ws i, co_wf s (who :: ws) -> cur s = Some c ->
+  status (st_yield s c who) i = if Nat.eqb c i then CoSusp else if opt_eqb who i then CoRun else status s i.
+Proof. exact st_yield_status_lemma. Qed.
+Print Assumptions status_after_yield.
+
+(* the driver's transitions are exactly these (definitional unfoldings of [drive]) *)
+Theorem drive_resume_initial : forall n conts stack co args w s k f,
+  status s co = CoInit f ->
+  drive (S n) conts stack (Eff (EResume co args w) s k) =
+  drive n conts ((cur s, k, w) :: stack) (call n [(None, None)] f args (st_resume s co)).
+Proof. exact drive_resume_init_step. Qed.
+Print Assumptions drive_resume_initial.
+
+Theorem drive_resume_suspended : forall n conts stack co args w s k kc,
+  status s co = CoSusp -> kfind conts co = Some kc ->
+  drive (S n) conts stack (Eff (EResume co args w) s k) =
+  drive n conts ((cur s, k, w) :: stack) (kc (RVals args) (st_resume s co)).
+Proof. exact drive_resume_susp_step. Qed.
+Print Assumptions drive_resume_suspended.
+
+Theorem drive_yield : forall n conts who kr w rest vs s k c,
+  cur s = Some c ->
+  drive (S n) conts ((who, kr, w) :: rest) (Eff (EYield vs) s k) =
+  drive n ((c, k) :: conts) rest (kr (RVals (if w then vs else VBool true :: vs)) (st_yield s c who)).
+Proof. exact drive_yield_step. Qed.
+Print Assumptions drive_yield.
+
+(* whole runs: with guarded computations the driver never reaches a stuck configuration *)
+Theorem status_automaton_never_stuck :
+  (forall m fr f args s, guarded s (call m fr f args s)) ->
+  forall n conts stack r s0,
+  co_wf s0 (whos stack) -> conts_ok s0 conts -> stack_ok stack -> guarded s0 r ->
+  ~ stuck (drive n conts stack r).
+Proof. exact drive_never_stuck_lemma. Qed.
+Print Assumptions status_automaton_never_stuck.
+
+(* ---- a dead, running or normal coroutine is never resumed: (false, msg), nothing changes ---- *)
+Theorem resume_dead_no_effect : forall n fr r rest s,
+  status s r = CoDead -> builtin_call (S n) fr BCoResume (VCo r :: rest) s = Ret [VBool false; VFault 8 0] s.
+Proof. exact resume_dead_no_effect_lemma. Qed.
+Print Assumptions resume_dead_no_effect.
+
+Theorem resume_nonsuspended_no_effect : forall n fr r rest s,
+  status s r = CoRun \/ status s r = CoNorm ->
+  builtin_call (S n) fr BCoResume (VCo r :: rest) s = Ret [VBool false; VFault 9 0] s.
+Proof. exact resume_nonsuspended_no_effect_lemma. Qed.
+Print Assumptions resume_nonsuspended_no_effect.
+
+Theorem resume_chain_no_effect : forall n fr r rest s ws,
+  co_wf s ws -> In (Some r) (cur s :: ws) ->
+  builtin_call (S n) fr BCoResume (VCo r :: rest) s = Ret [VBool false; VFault 9 0] s.
+Proof. exact resume_chain_no_effect_lemma. Qed.
+Print Assumptions resume_chain_no_effect.
+
+Theorem wrapped_dead_no_effect : forall n fr r args s,
+  status s r = CoDead -> builtin_call (S n) fr (BWrapped r) args s = Err (VFault 8 0) s.
+Proof. exact wrapped_dead_no_effect_lemma. Qed.
+Print Assumptions wrapped_dead_no_effect.
+
+Theorem wrapped_nonsuspended_no_effect : forall n fr r args s,
+  status s r = CoRun \/ status s r = CoNorm -> builtin_call (S n) fr (BWrapped r) args s = Err (VFault 9 0) s.
+Proof. exact wrapped_nonsuspended_no_effect_lemma. Qed.
+Print Assumptions wrapped_nonsuspended_no_effect.
+
+Theorem yield_outside_coroutine : forall n fr args s,
+  cur s = None -> builtin_call (S n) fr BCoYield args s = Err (VFault 10 0) s.
+Proof. exact yield_outside_lemma. Qed.
+Print Assumptions yield_outside_coroutine.
+
+(* ---- transfer_values ---- *)
+Theorem transfer_first_resume : forall n m fr conts stack r rest s f,
+  status s r = CoInit f ->
+  drive (S n) conts stack (builtin_call (S m) fr BCoResume (VCo r :: rest) s) =
+  drive n conts ((cur s, resume_k, false) :: stack) (call n [(None, None)] f rest (st_resume s r)).
+Proof. exact transfer_first_resume_lemma. Qed.
+Print Assumptions transfer_first_resume.
+
+Theorem transfer_resume_to_yield : forall n m fr conts stack r rest s rest_conts,
+  status s r = CoSusp -> conts = (r, resume_k) :: rest_conts ->
+  drive (S n) conts stack (builtin_call (S m) fr BCoResume (VCo r :: rest) s) =
+  drive n conts ((cur s, resume_k, false) :: stack) (Ret rest (st_resume s r)).
+Proof. exact transfer_resume_to_yield_lemma. Qed.
+Print Assumptions transfer_resume_to_yield.
+
+Theorem transfer_yield_to_resume : forall n m fr conts who rest vs s c,
+  cur s = Some c ->
+  drive (S n) conts ((who, resume_k, false) :: rest) (builtin_call (S m) fr BCoYield vs s) =
+  drive n ((c, resume_k) :: conts) rest (Ret (VBool true :: vs) (st_yield s c who)).
+Proof. exact transfer_yield_to_resume_lemma. Qed.
+Print Assumptions transfer_yield_to_resume.
+
+Theorem transfer_return_to_resume : forall n conts who rest vs s,
+  drive (S n) conts ((who, resume_k, false) :: rest) (Ret vs s) =
+  drive n conts rest (Ret (VBool true :: vs) (st_finish s who)).
+Proof. exact transfer_return_to_resume_lemma. Qed.
+Print Assumptions transfer_return_to_resume.
+
+Theorem transfer_return_to_wrap : forall n conts who k rest vs s,
+  drive (S n) conts ((who, k, true) :: rest) (Ret vs s) = drive n conts rest (k (RVals vs) (st_finish s who)).
+Proof. exact transfer_return_to_wrap_lemma. Qed.
+Print Assumptions transfer_return_to_wrap.
+
+(* ---- error_kills_only_that ---- *)
+Theorem error_kills_only_that : forall n conts who rest v s c ws,
+  co_wf s (who :: ws) -> cur s = Some c ->
+  drive (S n) conts ((who, resume_k, false) :: rest) (Err v s) =
+    drive n conts rest (Ret [VBool false; v] (st_finish s who)) /\
+  (forall k, drive (S n) conts ((who, k, true) :: rest) (Err v s) = drive n conts rest (k (RErr v) (st_finish s who))) /\
+  status (st_finish s who) c = CoDead /\
+  (forall i, i <> c -> Some i <> who -> status (st_finish s who) i = status s i) /\
+  (forall w, who = Some w -> status (st_finish s who) w = CoRun /\ status s w = CoNorm) /\
+  cur (st_finish s who) = who /\
+  cells (st_finish s who) = cells s /\ tabs (st_finish s who) = tabs s /\ clos (st_finish s who) = clos s /\
+  uds (st_finish s who) = uds s /\ trace (st_finish s who) = trace s /\
+  strmt (st_finish s who) = strmt s /\ dv (st_finish s who) = dv s /\
+  co_wf (st_finish s who) ws.
+Proof. exact error_kills_only_that_lemma. Qed.
+Print Assumptions error_kills_only_that.
